@@ -2,7 +2,7 @@
 
 Enumerates every signature shape (positional-only / positional-or-keyword / *args / keyword-only / **kwargs, every
 legal placement of defaults, with and without a leading ``self``) and, for each, every call shape that
-``inspect.Signature.bind`` accepts within the bounds; CPython's own binding is the oracle."""
+CPython's own call binding accepts within the bounds (a bare function with the same parameter list is the oracle)."""
 import inspect
 import itertools
 import json
@@ -118,6 +118,10 @@ def render(s, unknown=None, cdef=False):
     for n in reversed(named):
         decos.append("@icontract.require(c_{})".format(n))
     decos.append("@icontract.ensure(q, error=ef)")
+    # the oracle: a bare function with the very same parameter list; CPython's own call binding decides which call shapes are
+    # legal and which object every parameter receives (inspect.Signature.bind of 3.12 wrongly rejects f(a=1) for
+    # ``def f(a=D, /, **kwargs)``)
+    w.append("def spy({}):\n    return {}\n".format(params, "{" + ", ".join("'{0}': {0}".format(n) for n in named) + "}"))
     if in_class:
         w.append("class K:\n")
     for d in decos:
@@ -130,7 +134,7 @@ def render(s, unknown=None, cdef=False):
 
 
 def call_shapes(s, named):
-    """All (npos, keyword-name tuple) within the bounds; the caller filters with Signature.bind."""
+    """All (npos, keyword-name tuple) within the bounds; the caller filters with a call of the bare spy function."""
     npos_max = s["po"] + s["pk"] + 2
     kw_candidates = PO[: s["po"]] + PK[: s["pk"]] + KO[: s["ko"]] + ["z"]
     for npos in range(0, npos_max + 1):
@@ -168,11 +172,10 @@ def check_sig(s, acc, unknown=None, cdef=False):
             pos = tuple(Obj("P{}".format(i)) for i in range(npos))
             kw = {k: Obj("K_" + k) for k in kws}
             try:
-                ba = sig.bind(*(selfargs + pos), **kw)
+                bound = ns["spy"](*(selfargs + pos), **kw)
             except TypeError:
                 continue
-            ba.apply_defaults()
-            want = {n: id(ba.arguments[n]) for n in named}
+            want = {n: id(bound[n]) for n in named}
             want_args = tuple(id(v) for v in selfargs + pos)  # for a method the receiver is the first positional
             want_kwargs = tuple(sorted((k, id(v)) for k, v in kw.items()))
             feats = {"po": s["po"], "pk": s["pk"], "ko": s["ko"], "ndef": s["ndef"], "var": s["var"], "varkw": s["varkw"],
@@ -267,11 +270,11 @@ def run(tier, t0):
         PROP, tier, tot, t0,
         rule="every signature with <=2 positional-only, <=2 positional-or-keyword, optional *args, <=2 keyword-only, optional "
              "**kwargs ({} named parameters at most), every legal placement of defaults, with/without leading self; every call "
-             "shape accepted by inspect.Signature.bind with <= #positional+2 positionals and any keyword subset of the named "
+             "shape accepted by CPython for a bare function with the same parameters, with <= #positional+2 positionals and any keyword subset of the named "
              "parameters plus one extra key (also an extra key equal to a positional-only name); each call run with the final "
              "postcondition true and false (error factory), once with plain contract callables and once with contract callables "
              "whose parameters carry (wrong) defaults; plus variants with a condition asking for a name the call does not "
-             "provide. Oracle: sig.bind(...).apply_defaults() object identity. non-trivial = the call passes at least one "
+             "provide. Oracle: object identity with what the bare spy function receives. non-trivial = the call passes at least one "
              "argument or the signature has a named parameter".format(3 if tier == "quick" else 4),
         assumptions=["variadic parameter *names* (args, kwargs) are outside the statement and not judged",
                      "only calls that Python itself accepts are explored"],
